@@ -19,7 +19,7 @@ def P(level, modules, explanation, builds=None, builds_thorough=None, partial=No
 PROPS = {
     'C01': P('proof', ['C01'], 'decode = H.273: model-level theorems (see theorems) + bit-exact correspondence of the model with Rgb::try_from(&Yuv) on all 126+14 configurations + f64 oracle search'),
     'C02': P('proof', ['C02'], 'encode rounds to nearest code: theorems + correspondence of Yuv::try_from((&Rgb,cfg)) + exact oracle search'),
-    'C03': P('proof', ['C03', 'C03b', 'C03c', 'C03d', 'C03e', 'C03f', 'C03g', 'C03h', 'C03i'], 'transfer curves: identity/alias theorems, anchors by kernel evaluation, accuracy theorems as listed + correspondence on all 19 transfer values + f64 oracle search', partial=['accuracy 2.5e-4 over all floats of [0,1] is PROVED for 13 of the 14 characteristics in both directions: the power-law family (BT.1886 + 4 aliases, BT.470M, BT.470BG), xvYCC, sRGB (against the IEC constants), Log100, Log316, HLG, Linear; the linear->gamma direction of Log100/316 and HLG goes through libm log10 / ln and is proved under the stated 1e-6 accuracy hypothesis on that model parameter; PQ (2.5e-4 / 5.7e-4) is NOT proved (the composition of three powf calls amplifies the certified error bounds beyond the budget): bit-exact correspondence + f64 oracle, exhaustive in the thorough tier']),
+    'C03': P('proof', ['C03', 'C03b', 'C03c', 'C03d', 'C03e', 'C03f', 'C03g', 'C03h', 'C03i', 'C03j'], 'transfer curves: identity/alias theorems, anchors by kernel evaluation, accuracy theorems as listed + correspondence on all 19 transfer values + f64 oracle search', partial=['accuracy 2.5e-4 over all floats of [0,1] is PROVED for 13 of the 14 characteristics in both directions: the power-law family (BT.1886 + 4 aliases, BT.470M, BT.470BG), xvYCC, sRGB (against the IEC constants), Log100, Log316, HLG, Linear; the linear->gamma direction of Log100/316 and HLG goes through libm log10 / ln and is proved under the stated 1e-6 accuracy hypothesis on that model parameter; PQ (2.5e-4 / 5.7e-4) is NOT proved (the composition of three powf calls amplifies the certified error bounds beyond the budget): bit-exact correspondence + f64 oracle, exhaustive in the thorough tier']),
     'C04': P('proof', ['C04'], 'XYB forward = opsin definition within 2e-6: theorem for every admissible pixel (fastmath build) + bit-exact correspondence + f64 oracle', partial=['fastmath off: cbrtf is libm (model parameter); correspondence + oracle']),
     'C05': P('proof', ['C05'], 'XYB round trip within 5e-5 on the unit cube: theorem for every pixel (fastmath build) + bit-exact correspondence + f64 oracle', partial=['fastmath off: cbrtf is libm (model parameter); correspondence + oracle']),
     'C06': P('proof', ['C06'], 'primaries conversion: theorems (identical primaries bit-exact, evaluated matrices) + correspondence on all 14 primaries + f64 CIE oracle', partial=['there-and-back within 1e-5 for every pixel: evaluated for white only; correspondence + f64 oracle']),
@@ -29,7 +29,7 @@ PROPS = {
     'C10': P('proof', ['C10', 'C10b'], 'gamma->linear->gamma: theorems as listed + correspondence + search', partial=['round-trip bound over all floats of [0,1] is PROVED for the power-law family (BT.1886 + 4 aliases, BT.470M, BT.470BG); for sRGB, xvYCC, Log100/316, HLG and PQ it is not proved: correspondence + exhaustive oracle (thorough)']),
     'C11': P('proof', ['C11'], 'pointwise / layout independence: loop invariants over all geometries + correspondence on sizes 1..64 + pointwise search'),
     'C12': P('proof', ['C12'], 'constructors: iff theorems + correspondence on the geometry stream + independent contract oracle'),
-    'C13': P('proof', ['C13'], 'totality and code validity: theorems + correspondence on special floats + search in optimised and checked builds', builds=['default', 'checked'], partial=['finite inputs in [0,1]^3 give finite outputs: oracle only; overflow/debug-checked builds: usize arithmetic is modelled on Nat, the checked build is exercised by correspondence + oracle']),
+    'C13': P('proof', ['C13', 'C13b'], 'totality and code validity: theorems + correspondence on special floats + search in optimised and checked builds', builds=['default', 'checked'], partial=['finite inputs in [0,1]^3 give finite outputs: proved for the transfer stage of 13 of the 14 characteristics (C13.curves_finite, corollary of C03.accuracy; log/HLG linear->gamma under the libm hypotheses), for the other stages and for PQ oracle only; overflow/debug-checked builds: usize arithmetic is modelled on Nat, the checked build is exercised by correspondence + oracle']),
     'C14': P('proof', ['C14'], 'support/error contract decided over all 3276 triples by `decide` on the model + exhaustive correspondence of all triples'),
     'C15': P('proof', ['C15'], 'Unspecified resolution: mpv table for all sizes, label theorems + exhaustive correspondence + content oracle'),
     'C16': P('proof', ['C16'], 'neutral axis and anchors: exhaustive/evaluated theorems + correspondence on every luma code + search'),
